@@ -113,6 +113,36 @@ class Pool:
             ch = rng.choice([c for c in v if 0 < c < 0x80] + [0x7E]) if n else 0x7E
             op = 'split0,%d,%d,%d' % (res, src, ch)
             cls, out = 'mctor', v.split(bytes([ch]))[0]
+        elif name in ('hexenc', 'b64enc', 'hexrt', 'fmt', 'via16', 'via32', 'sstr'):
+            # results built through temporaries: M=via:<temporaries, in allocation order>:<result>.  A temporary
+            # shorter than the small-buffer limit allocates nothing.  Blocks that are not char buffers (the
+            # std::function closures of ST::format, UTF-16/32 buffers, stream growth) are stood for by dummies
+            # of a length with the same allocate / do-not-allocate class.
+            if any(c >= 0x80 for c in v):
+                return self.const_op('copy', res, src)
+            import base64 as _b64
+            big = b'\0' * 40
+            op = '%s,%d,%d' % (name, res, src)
+            if name == 'hexenc':
+                temps, out = [v], v.hex().encode()
+            elif name == 'b64enc':
+                temps, out = [v], _b64.b64encode(v)
+            elif name == 'hexrt':
+                temps, out = [v, v.hex().encode()], v
+            elif name == 'fmt':
+                temps, out = [big, big], v + b'|' + v.rjust(8)
+            elif name == 'via16':
+                temps, out = [v], v
+            elif name == 'via32':
+                temps, out = [big if n >= 12 else b''], v
+            else:
+                reps = rng.choice([1, 2, 3, 4])
+                total = reps * (n + 5)
+                if total > 512:
+                    reps, total = 1, n + 5
+                op += ',%d' % reps
+                temps, out = ([big] if total > 256 else []), (v + b'12345') * reps
+            cls = 'via:' + '/'.join(hx(t) for t in temps if t)
         elif name == 'empty':
             op = 'empty,%d' % res
             cls, out = 'empty', b''
@@ -122,11 +152,14 @@ class Pool:
         else:
             raise ValueError(name)
         m = cls if cls in ('empty', 'copy', 'copymove') else '%s:%s' % (cls, hx(out))
+        if cls.startswith('via:') and not out:
+            m = cls + ':.'
         self.ops.append(op + ',M=' + m)
         self.val[res] = out
 
     CONST = ['substr', 'substr', 'left', 'right', 'upper', 'lower', 'trim', 'plus', 'replace', 'replace',
-             'replace_self', 'utf8', 'before_first', 'after_last', 'split0', 'empty', 'copy', 'copy']
+             'replace_self', 'utf8', 'before_first', 'after_last', 'split0', 'empty', 'copy', 'copy',
+             'hexenc', 'b64enc', 'hexrt', 'fmt', 'via16', 'via32', 'sstr']
 
     def step(self):
         rng = self.rng
